@@ -675,6 +675,76 @@ func c02InFlight(r *Run, variant int) {
 
 // c02StressDebug re-runs one stress round (args round=N reps=K) and, if its writers stop
 // making progress, prints the policy's sizes read without the lock (diagnosis aid).
+// c02ExpiredThenRewritten: an entry whose deadline has passed but which has not been reclaimed yet (no tick since)
+// is written again - without a TTL (which clears the deadline) or with a new one - with another cost, then
+// perhaps deleted or left to a tick. After every step the quiescent invariant must hold: the cost change of such a
+// write is a policy event like any other.
+func c02ExpiredThenRewritten(r *Run, variant int) { expiredThenRewritten(r, variant, "C02") }
+
+// expiredThenRewritten also serves C16, which judges only what its statement names: EstimatedSize against the
+// total cost of the resident entries.
+func expiredThenRewritten(r *Run, variant int, prop string) {
+	rng := r.Rng(int64(29000 + variant))
+	M := []int64{10, 100}[variant%2]
+	c, err := theine.NewBuilder[int, int64](M).Build()
+	if err != nil {
+		r.Broken("build: %v", err)
+		return
+	}
+	defer c.Close()
+	st := c.VerifStore()
+	n := 3 + rng.Intn(4)
+	for k := 0; k < n; k++ {
+		c.SetWithTTL(k, int64(k), 1, time.Duration(1+rng.Intn(3))*time.Second)
+	}
+	c.Set(100, 100, 1)
+	c.Wait()
+	st.VerifShiftClock(10*time.Second, true)
+	st.VerifRefreshClock()
+	desc := fmt.Sprintf("MaxSize %d: %d entries stored with TTLs of 1-3 s and cost 1; 10 s of virtual time pass without a tick", M, n)
+	check := func(stage string) {
+		c.Wait()
+		sn := st.VerifSnapshot()
+		for _, is := range checkQuiescent(sn, c.EstimatedSize(), true) {
+			if prop == "C16" {
+				if is.Key != "estimated-size-mismatch" && is.Key != "resident-cost-vs-policy" {
+					continue
+				}
+				is.Key = "estimatedsize!=sum-of-costs"
+			}
+			r.Violate(is.Key+"/after-rewriting-an-expired-unreclaimed-entry", fmt.Sprintf("%s; %s: %s", desc, stage, is.What), map[string]any{"variant": variant, "stage": stage, "snapshot": snapSummary(sn)})
+		}
+	}
+	for k := 0; k < n; k++ {
+		cost := int64(2 + rng.Intn(int(M)/2))
+		if (variant/2+k)%2 == 0 {
+			c.Set(k, int64(k)+1000, cost)
+			check(fmt.Sprintf("after Set(%d, cost %d) without TTL", k, cost))
+		} else {
+			c.SetWithTTL(k, int64(k)+2000, cost, time.Hour)
+			check(fmt.Sprintf("after SetWithTTL(%d, cost %d, 1h)", k, cost))
+		}
+	}
+	switch variant % 3 {
+	case 0:
+		for k := 0; k < n; k++ {
+			c.Delete(k)
+		}
+		check("after deleting the rewritten entries")
+	case 1:
+		st.VerifTick()
+		check("after a tick")
+	case 2:
+		for k := 0; k < n; k++ {
+			c.Set(k, int64(k)+3000, 1)
+		}
+		check("after setting the costs back to 1")
+	}
+	r.Eval(1)
+	r.Count("expired_then_rewritten_scenarios", 1)
+	r.Distinct(fmt.Sprintf("expired-then-rewritten/M%d/v%d", M, variant%6))
+}
+
 // c02Tiers: the accounting half of the property on hybrid / hybrid-loading caches whose secondary store is slow
 // and fails: Sets, Deletes and Gets by a few goroutines, with bursts that overflow the bounded hand-off queue while
 // the workers are held inside the store, and 0-30% of the store's calls (Set, Get and Delete alike) failing. At
@@ -954,6 +1024,9 @@ func runC02(r *Run) {
 	nIF := r.Pick(1, 5)
 	for i := 0; i < nIF; i++ {
 		c02InFlight(r, r.Shard+i)
+	}
+	for i := 0; i < r.Pick(6, 60); i++ {
+		c02ExpiredThenRewritten(r, r.Shard*6+i)
 	}
 	nT := r.Pick(6, 120)
 	for i := 0; i < nT; i++ {
